@@ -139,6 +139,14 @@ def opSpec (name : String) (args : List String) : String :=
         | some l => specC04 t (hexOr inline) (hexOr psql) l
         | none => "0:unreadable parameter list")
      | none => "0:unreadable tree")
+  | "c11", [treeDF, treeNo, df] =>
+    (match parseCanonExpr treeDF, parseCanonExpr treeNo with
+     | some a, some c =>
+       let dfb := hexOr df
+       if canonExpr (eraseDf dfb a) != canonExpr c then "0:erasing the default-field scoping does not give back the tree obtained without the option"
+       else if !noBareTerm a then "0:a bare term remains unscoped"
+       else "1"
+     | _, _ => "0:unreadable tree")
   | "sqlcanon", [sql] =>
     (match Sql.parseSql (hexOr sql) with
      | some a => "1:" ++ Sql.canon a
